@@ -193,3 +193,53 @@ Proof.
 Qed.
 
 End Top.
+
+(** ** Totality and the exit status *)
+Section Exit.
+Variable g : grammar.
+Variables nn ntm : nat.
+Variable symbols : list sym.
+Variable la_order : list nat.
+Variable p_acts : list bool.
+Variable terr : nat.
+Variable fuel : nat.
+Hypothesis WF : gen_wf g nn ntm symbols la_order terr = true.
+Hypothesis FUEL : 2 ^ length (item_universe g la_order) < fuel.
+
+Notation run_auto := (gen_run_auto g nn ntm symbols la_order p_acts terr fuel).
+
+Theorem gen_run_auto_total :
+  (exists tb an tr n, run_auto = AutoOk tb an tr n) \/ (exists an tr, run_auto = AutoRefused an tr).
+Proof.
+  assert (GNE : g <> []) by (eapply g_ne; eauto).
+  unfold gen_run_auto. rewrite WF. simpl.
+  destruct (gen_first g nn) as [[N F]|] eqn:EF; [|exfalso; revert EF; now apply gen_first_ok].
+  destruct (gen_states_an g symbols la_order {| a_items := []; a_nullable := N; a_first := F |} fuel)
+    as [[sts trs]|] eqn:ES; [|exfalso; revert ES; now apply gen_states_fuel_ok].
+  destruct (all_some _); [left|right]; eauto.
+Qed.
+
+(** with -a: status zero iff accepting competes with nothing in the canonical collection;
+    without -a: status zero iff the canonical collection has no conflict at all *)
+Theorem gocc_exit_zero_iff auto :
+  gocc_exit g nn ntm symbols la_order p_acts terr auto fuel = Some 0 <->
+  (if auto then ~ canonical_accept_conflict g else ~ canonical_conflict g).
+Proof.
+  unfold gocc_exit. destruct gen_run_auto_total as [(tb & an & tr & n & E)|(an & tr & E)]; rewrite E.
+  - pose proof (gen_auto_reports _ _ _ _ _ _ _ _ _ _ _ _ E) as HR.
+    assert (AV : auto_valid g ntm an tr = true) by (apply (gen_auto_automaton_valid g nn ntm symbols la_order p_acts terr fuel); left; eauto).
+    assert (NA : ~ canonical_accept_conflict g).
+    { intro HA. apply (C04_panics g ntm an tr AV) in HA. congruence. }
+    pose proof (gen_auto_reports_iff_not_LR1 _ _ _ _ _ _ _ _ _ _ _ _ E) as HC.
+    destruct auto.
+    + split; [intros _; exact NA|reflexivity].
+    + destruct (Nat.eqb_spec n 0) as [->|Hn].
+      * split; [intros _ H; apply HC in H; lia|reflexivity].
+      * split; [discriminate|]. intros H. exfalso. apply H. apply HC. lia.
+  - destruct (gen_auto_refused _ _ _ _ _ _ _ _ _ _ E) as [HR HA].
+    assert (AV : auto_valid g ntm an tr = true) by (apply (gen_auto_automaton_valid g nn ntm symbols la_order p_acts terr fuel); right; exact E).
+    split; [discriminate|]. intros H. exfalso. destruct auto; [exact (H HA)|].
+    apply H. apply (C04_conflict_iff g ntm an tr AV). left. exact HR.
+Qed.
+
+End Exit.
